@@ -158,7 +158,7 @@ Proof. unfold carries. rewrite N.lor_spec. intros ->. apply orb_true_r. Qed.
 Section Complete.
 Variable expand : bs -> bs -> option bs.
 
-(* once checkAuth admits (u, level): qualification, the right target and an orderly request
+(* once checkAuth lets (u, level) through: qualification, the right target and an orderly request
    are enough *)
 Lemma after_auth st now lim q u level iat :
   check_auth now lim bAny (auth_request q) = Admit u level iat ->
